@@ -24,6 +24,7 @@ extern uint64_t vh_seed0;     /* VERIF_SEED */
 extern int      vh_shard, vh_nshards;
 extern int      vh_verbose;   /* set in replay mode */
 extern int      vh_slice;     /* >1: run only every vh_slice-th unit (coverage builds) */
+extern int      vh_light;     /* secondary build configuration of the thorough tier: the very large enumerations may be thinned */
 
 /* ---- PRNG: xoshiro256** ---- */
 typedef struct { uint64_t s[4]; } vh_rng;
